@@ -396,5 +396,7 @@ def run(F, rep, tier):
     rule_r1(F, rep)
     rule_r2(F, rep)
     rule_r3(F, rep)
-    rep.assume("agreement of the evaluator's run-time environments with the same table is not decided")
+    from . import arity
+    arity.rule_default_env(F, rep, "C09.R4")
+    rep.assume("agreement of the evaluator's other run-time environments with the same table is not decided")
     return EXPLANATION
